@@ -3,6 +3,7 @@ package props
 import (
 	"bytes"
 	"context"
+	"errors"
 	"encoding/base64"
 	"encoding/json"
 	"fmt"
@@ -59,6 +60,19 @@ func partialFuncs(c *core.Choices, inner ociregistry.Interface) ociregistry.Inte
 	}
 	if on("GetBlobRange") {
 		f.GetBlobRange_ = inner.GetBlobRange
+		if c.Bool("funcs.GetBlobRange.lax", 1, 2) {
+			// a backend that does not police ranges itself (as ociclient against a
+			// registry without range support): where the in-memory registry refuses
+			// the range, this one hands over a reader on the whole blob
+			f.GetBlobRange_ = func(ctx context.Context, repo string, dig ociregistry.Digest, o0, o1 int64) (ociregistry.BlobReader, error) {
+				rd, err := inner.GetBlobRange(ctx, repo, dig, o0, o1)
+				var oe ociregistry.Error
+				if err != nil && !errors.As(err, &oe) {
+					return inner.GetBlob(ctx, repo, dig)
+				}
+				return rd, err
+			}
+		}
 	}
 	if on("GetManifest") {
 		f.GetManifest_ = inner.GetManifest
